@@ -310,6 +310,9 @@ type symxFront struct {
 	*symxPipeline
 	auth *symxAuth
 	mgr  *manager
+	// one setup worker serves every connection of a front, as each of the manager's setup
+	// workers serves many connections one after the other
+	worker *setupWorker
 }
 
 func (p *symxPipeline) front(a *symxAuth) *symxFront {
@@ -321,7 +324,10 @@ func (p *symxPipeline) front(a *symxAuth) *symxFront {
 // real serve loop is left running on the connection.
 func (f *symxFront) connect(c *symxConn, connectBytes []byte) error {
 	c.feed(connectBytes)
-	w := &setupWorker{manager: f.mgr, decoder: decoder.New(), encoder: encoder.New(), authHandler: f.auth, state: f.state, local: f.local, writer: f.writer}
+	if f.worker == nil {
+		f.worker = &setupWorker{manager: f.mgr, decoder: decoder.New(), encoder: encoder.New(), authHandler: f.auth, state: f.state, local: f.local, writer: f.writer}
+	}
+	w := f.worker
 	err := w.setup(f.ctx, transport.Metadata{Name: "tcp", Channel: c})
 	if err != nil {
 		c.Close() // what manager.runSetupper does with a failed setup
@@ -435,4 +441,29 @@ func symxPoolRetryWait(n int) {
 		symxTick()
 		rt.Quiesce()
 	}
+}
+
+// symxGossip hands src's broadcasts to dst the way a gossip layer may, by solver choice: in order;
+// with two of them swapped; or only the first k of them (the rest are lost) followed by the
+// periodic full-state push/pull (src's LocalState merged by dst).
+func symxGossip(payloads [][]byte, src, dst *symxBroker) {
+	n := len(payloads)
+	log := append([][]byte(nil), payloads...)
+	mode := rt.Int("gossip_mode", 0, 2)
+	switch mode {
+	case 1:
+		if n >= 2 {
+			i, j := int(rt.Int("swap_a", 0, int64(n-1))), int(rt.Int("swap_b", 0, int64(n-1)))
+			log[i], log[j] = log[j], log[i]
+		}
+	case 2:
+		log = log[:int(rt.Int("gossip_delivered", 0, int64(n)))]
+	}
+	for _, p := range log {
+		dst.state.Distributor().NotifyMsg(p)
+	}
+	if mode == 2 {
+		dst.state.Distributor().MergeRemoteState(src.state.Distributor().LocalState(false), false)
+	}
+	rt.Cover(mode == 2 && len(log) < n, "gossip.lost_broadcasts_repaired_by_push_pull")
 }
